@@ -220,6 +220,9 @@ def run(ctx) -> Report:
             )
         else:
             rep.ok("C10-memo", alg, f"{alg.name}: context-sensitive ({sorted(state_reads)}); Variable rule does not use the label-keyed memo")
+    from ..memokey import check_memo_keys
+
+    check_memo_keys(ctx, rep, "C10-key", ["ufl.algorithms.remove_component_tensors", "ufl.algorithms.expand_indices", "ufl.algorithms.renumbering"], min_sites=2)
     rep.require_min("C10-remove", 20)
     rep.require_min("C10-relabel", 20)
     rep.require_min("C10-expand", 12)
